@@ -6,7 +6,9 @@ import H3.Model.E2E
     what the client (resp. server) application submitted on request stream `q<sid>` is what the
     peer application must be handed — same method, target, protocol, header values in the same
     per-name order, body = concatenation of the pieces sent, trailers — and then exactly one clean
-    end, AND NOTHING ELSE: no call of either endpoint is left pending, neither endpoint has closed
+    end (a target without scheme and authority is seen completed by `https` and the `Host` value,
+    `specTarget`; every `send_response` before the last one is an interim response and must be
+    answered by a `recv_response` call of its own, in order), AND NOTHING ELSE: no call of either endpoint is left pending, neither endpoint has closed
     the connection, reset a request stream or asked the peer to stop sending on one, and no call
     has answered anything the line does not account for (`extra=-`: a `recv_data` answer other than
     data outside the reader loop, an error of a sending call, an error of a driver).  Transport
